@@ -186,9 +186,14 @@ def handleMon (j : Json) : R Json := do
     pure (jBool (ok.all id))
   | _ => throw s!"bad monitor {k}"
 
+/-- the `.meta` sidecar of a write whose clock reads `created` (one per entry) -/
+def handleSidecar (j : Json) : R Json := do
+  let cs ← (← fldArr j "created").toList.mapM cpsOf
+  pure (jArr (cs.map (fun c => encJ (sidecarOf (W := Float) c))))
+
 def routes : List (String × (Json → R Json)) :=
   [("snap.chain", handleChain), ("snap.load", handleLoad), ("snap.sanitize", handleSanitize),
    ("snap.pick", handlePick), ("snap.round6", handleRound6), ("snap.sw", handleSw),
-   ("snap.mon", handleMon)]
+   ("snap.mon", handleMon), ("snap.sidecar", handleSidecar)]
 
 end Driver.HSnap
